@@ -1,6 +1,8 @@
 import RoaringModel.Lemmas.RoundTrip
 import RoaringModel.Lemmas.EncodeSpec
 import RoaringModel.Lemmas.DecodeWF
+import RoaringModel.Lemmas.TreemapCodec
+import RoaringModel.Lemmas.TreemapEncodeSpec
 /-!
 # C06 — every conformant Roaring stream decodes to exactly its set (32-bit half)
 
@@ -43,5 +45,60 @@ example : Spec.decode [59, 48, 0, 0, 1, 3, 0, 3, 0, 2, 0, 2, 0, 2, 0, 9, 0, 0, 0
     some ([196610, 196611, 196612, 196617], []) := by rfl
 example : (deserialize true true [59, 48, 0, 0, 1, 3, 0, 3, 0, 2, 0, 2, 0, 2, 0, 9, 0, 0, 0]).map
     (fun r => (Bitmap.elems r.1, r.2)) = .ok ([196610, 196611, 196612, 196617], []) := by rfl
+
+end Roaring.C06
+
+/-!
+# C06, 64-bit half — the portable format of `RoaringTreemap`
+
+Full statement (`C06_t_statement`): whenever the strict reference decoder `Spec.decode64` (`SpecCodec64.lean`:
+`u64` count, strictly ascending `u32` keys, conformant inner streams, an empty bucket allowed) accepts a stream
+with set `S`, both treemap decoders return a well-formed value with `elems = S` and the same unread rest.
+Proved: the instance for the standard encodings (what `Spec.encode64` produces for the element list of any
+well-formed treemap, followed by arbitrary bytes), and well-formedness of everything the checked decoder accepts.
+Streams with run chunks / offset-less inner headers / empty buckets are covered by the correspondence against
+the independent conformant encoder (`harness/src/gen/stream64.rs`, profile C06T: `teq` with the natively built
+treemap) and by the driver's run-time `!SPEC` cross-check on every generated stream.
+-/
+namespace Roaring.C06
+open Roaring
+
+/-- (the input is a byte string: on lists with entries `≥ 256` a "`u32`" key read from four entries could exceed
+    `2^32`, which no `&[u8]` can express) -/
+def C06_t_statement : Prop :=
+  ∀ (chk dbg : Bool) (bs S rest : List Nat), (∀ x ∈ bs, x < 256) → Spec.decode64 bs = some (S, rest) →
+    ∃ t, Treemap.deserialize chk dbg bs = .ok (t, rest) ∧ Treemap.SerWF BitmapWF t ∧ Treemap.elems t = S
+
+/-- The treemap decoders invert the reference encoder of the portable format: the standard encoding of the
+    elements of any well-formed treemap, followed by anything, decodes to exactly that value (`==` the natively
+    built one), leaving what followed.  Hypothesis: the 32-bit bitset bridge `Kernel.bitmap_toArray` (see C05). -/
+theorem C06_t_standard_partial (hK : Kernel.bitmap_toArray) (chk dbg : Bool) (t : Treemap)
+    (h : Treemap.SerWF BitmapWF t) (rest : List Nat) :
+    Treemap.deserialize chk dbg (Spec.encode64 (Treemap.elems t) ++ rest) = .ok (t, rest) := by
+  rw [← Treemap.serialize_eq_encode64 t (Treemap.partsOK_of_serWF hK h) h.sorted
+    (fun p hp => serialize_eq_encode hK p.2 (h.parts p hp).2.1)]
+  exact Treemap.deserialize_serialize chk dbg (fun b hb r => deserialize_serialize chk dbg b hb r) t h rest
+
+/-- Whatever the checked treemap decoder returns is well-formed: ascending keys, no empty partition, every
+    partition a well-formed 32-bit value (modulo the 32-bit run-chunk kernel fact, see C13). -/
+theorem C06_t_checked_wf_partial (hK : Kernel.runStore_wf) (dbg : Bool) (bs rest : List Nat) (t : Treemap)
+    (hb : ∀ x ∈ bs, x < 256) (h : Treemap.deserialize true dbg bs = .ok (t, rest)) : Treemap.SerWF BitmapWF t :=
+  (Treemap.post_deserializeG true dbg (post_deserialize hK dbg) bs t rest hb h).1
+
+/-- concrete instance (no hypothesis), by evaluation: three buckets — key 1 with a run-cookie stream without
+    offset header (run chunk `[(2,2),(9,0)]` under chunk key 3), key 2 with the empty set, key `u32::MAX` with an
+    array chunk — accepted by the strict reference decoder with set `S`, decode to a value with `elems = S`
+    and two partitions. -/
+example : Spec.decode64 [3, 0, 0, 0, 0, 0, 0, 0,
+      1, 0, 0, 0, 59, 48, 0, 0, 1, 3, 0, 3, 0, 2, 0, 2, 0, 2, 0, 9, 0, 0, 0,
+      2, 0, 0, 0, 58, 48, 0, 0, 0, 0, 0, 0,
+      255, 255, 255, 255, 58, 48, 0, 0, 1, 0, 0, 0, 0, 0, 0, 0, 16, 0, 0, 0, 7, 0] =
+    some ([4295163906, 4295163907, 4295163908, 4295163913, 18446744069414584327], []) := by rfl
+example : (Treemap.deserialize true true [3, 0, 0, 0, 0, 0, 0, 0,
+      1, 0, 0, 0, 59, 48, 0, 0, 1, 3, 0, 3, 0, 2, 0, 2, 0, 2, 0, 9, 0, 0, 0,
+      2, 0, 0, 0, 58, 48, 0, 0, 0, 0, 0, 0,
+      255, 255, 255, 255, 58, 48, 0, 0, 1, 0, 0, 0, 0, 0, 0, 0, 16, 0, 0, 0, 7, 0]).map
+    (fun r => (Treemap.elems r.1, r.1.length, r.2)) =
+    .ok ([4295163906, 4295163907, 4295163908, 4295163913, 18446744069414584327], 2, []) := by rfl
 
 end Roaring.C06
